@@ -59,6 +59,7 @@ class Ref:
         self.spec = dict(desc["states"]) | dict(desc["choices"])
         self.grid = {k: ref_grid(v) for k, v in self.spec.items()}
         self.stoch = list(desc.get("stochastic", []))
+        self.scalar_functions = set(desc.get("scalar_functions", []))
         self.filters = [n for n in self.fargs if n.endswith("_filter")]
         self.constraints = [n for n in self.fargs if n.endswith("_constraint")]
         sparse = set()
@@ -135,7 +136,18 @@ class Ref:
             else:
                 kwargs[a] = params[name][a]
         with np.errstate(all="ignore"):
-            cache[name] = self.funcs[name](**kwargs)
+            if name in self.scalar_functions:
+                # written for scalars: evaluate element by element (what lcm's vmap does)
+                ks = list(kwargs)
+                arrs = np.broadcast_arrays(*[np.asarray(kwargs[k]) for k in ks]) if ks else []
+                if ks and arrs[0].ndim > 0:
+                    flat = [a.reshape(-1) for a in arrs]
+                    out = np.array([self.funcs[name](**{k: f[i] for k, f in zip(ks, flat)}) for i in range(flat[0].size)])
+                    cache[name] = out.reshape(arrs[0].shape)
+                else:
+                    cache[name] = self.funcs[name](**kwargs)
+            else:
+                cache[name] = self.funcs[name](**kwargs)
         return cache[name]
 
     # -- filters / spaces ------------------------------------------------------------
